@@ -4,7 +4,7 @@ import sys, os, json, shutil
 src, sid, prop, det, note = sys.argv[1:6]
 dst = os.path.join('/verif/seeded', sid); os.makedirs(dst, exist_ok=True)
 for f in os.listdir(src):
-    if f in ('patch.diff', 'meta.json') or f.startswith('demo.') and not f.endswith('.o'):
+    if f in ('patch.diff', 'meta.json', 'run_demo.sh') or f.startswith('demo.') and not f.endswith('.o'):
         if os.path.isfile(os.path.join(src, f)) and os.path.getsize(os.path.join(src, f)) < 200000: shutil.copy(os.path.join(src, f), dst)
 m = json.load(open(os.path.join(dst, 'meta.json')))
 m['breaks_property'] = prop
